@@ -242,6 +242,12 @@ V2HDR = ('<?xml version="1.0" encoding="UTF-8" standalone="no"?>\r\n'
          '<?OFX OFXHEADER="200" VERSION="203" SECURITY="NONE" OLDFILEUID="NONE" NEWFILEUID="NONE"?>\r\n')
 
 
+V2HDR_NOBREAK = ('<?xml version="1.0" encoding="UTF-8" standalone="no"?>'
+                 '<?OFX OFXHEADER="200" VERSION="203" SECURITY="NONE" OLDFILEUID="NONE" NEWFILEUID="NONE"?>')
+V1HDR_NOBREAK = ("OFXHEADER:100DATA:OFXSGMLVERSION:102SECURITY:NONEENCODING:USASCIICHARSET:1252"
+                 "COMPRESSION:NONEOLDFILEUID:NONENEWFILEUID:NONE")
+
+
 class Stream:
     def __init__(self, ch):
         self.ch = ch
@@ -304,6 +310,12 @@ class Stream:
         attempt("OFXTree.parse(other header kind)", lambda: OFXTree().parse(io.BytesIO((other + text).encode("ascii"))))
         attempt("OFXTree.parse(blank lines around)", lambda: OFXTree().parse(io.BytesIO(b"\r\n\r\n" + hdr.encode() + b"\r\n" + text.encode("ascii") + b"\r\n  \r\n")))
         attempt("OFXTree.parse(parser=TreeBuilder())", lambda: OFXTree().parse(io.BytesIO(data), parser=TreeBuilder()))
+        # header layouts without any line break (both are legal), and a whole second file glued on (a download
+        # that was appended to an earlier one): the glued-on document is a second top-level element
+        attempt("OFXTree.parse(v2 header, no line breaks)", lambda: OFXTree().parse(io.BytesIO((V2HDR_NOBREAK + text).encode("ascii"))))
+        attempt("OFXTree.parse(v1 header, no line breaks)", lambda: OFXTree().parse(io.BytesIO((V1HDR_NOBREAK + text).encode("ascii"))))
+        glued = V2HDR_NOBREAK + text.strip() + V2HDR_NOBREAK + "<OFX><SIGNONMSGSRSV1></SIGNONMSGSRSV1></OFX>"
+        attempt("OFXTree.parse(second file glued on, one line)", lambda: OFXTree().parse(io.BytesIO(glued.replace("\r", "").replace("\n", " ").encode("ascii"))))
         self.sim.count("probe.entry_point_variants", len(out))
         return out
 
